@@ -10,8 +10,9 @@ from dataclasses import dataclass, field
 
 from sa.consteval import ConstEval, NotConstant
 from sa.model import Model
-from sa.paths import Engine, Path, loop_body_paths, show_sv
+from sa.paths import Engine, Path, Unsupported, loop_iterations, show_sv
 from sa.report import Undecided
+from sa.seqbuf import BufSem
 
 MOD = "hdlc"
 READER = (MOD, "HdlcFrameReader")
@@ -110,8 +111,11 @@ class HdlcModel:
             self.maxlen = self.ce.class_const(FRAME[0], FRAME[1], "MAX_FRAME_LENGTH")
         except NotConstant:
             self.maxlen = 2047
-        self.roles = self._bind_roles()
         self.keep = {"is_expected_length", "header_check_sequence", "is_good_ffc", "header"}
+        self.roles = self._bind_roles()
+        self.buf = BufSem(M, self.roles.buffer_cls)
+        if self.buf.err:
+            raise Undecided(f"HDLC input buffer: {self.buf.err}")
         self.engine = Engine(M, keep_props=self.keep)
         self.loop, raw_paths = self._loop_paths()
         self.paths = [self._classify(p) for p in raw_paths]
@@ -146,13 +150,15 @@ class HdlcModel:
         for a, t in c.field_types.items():
             if t == FRAME:
                 r.frame = a
-        # buffer: receiver of .extend(<chunk parameter>) in read()
+        # buffer: the sub-object that receives the chunk parameter in read() (resolved through local aliases)
         chunk = self.read_fn.params[0] if self.read_fn.params else None
-        for n in ast.walk(self.read_fn.node):
-            if (isinstance(n, ast.Call) and isinstance(n.func, ast.Attribute) and n.func.attr == "extend" and len(n.args) == 1
-                    and isinstance(n.args[0], ast.Name) and n.args[0].id == chunk and isinstance(n.func.value, ast.Attribute)
-                    and isinstance(n.func.value.value, ast.Name) and n.func.value.value.id == "self"):
-                r.buffer = n.func.value.attr
+        try:
+            for p in Engine(M, keep_props=self.keep).run(self.read_fn):
+                for e in p.effects:
+                    if e[0] == "callm" and e[3] == (("p", chunk),) and e[1][0] == "f0" and e[1][1] == SELF:
+                        r.buffer = e[1][2]
+        except Unsupported as ex:
+            raise Undecided(f"HdlcFrameReader.read uses a statement outside the analysed subset: {ex}")
         if r.buffer:
             r.buffer_cls = c.field_types.get(r.buffer)
         raws = [a for a, v in c.field_inits.items() if isinstance(v, ast.Call) and isinstance(v.func, ast.Name) and v.func.id == "bytearray" and a != r.buffer]
@@ -166,23 +172,27 @@ class HdlcModel:
     # ------------------------------------------------------------------ paths
     def _loop_paths(self):
         fn = self.read_fn
-        loops = [n for n in fn.node.body if isinstance(n, (ast.While, ast.For))]
-        if len(loops) != 1 or not isinstance(loops[0], ast.While):
-            raise Undecided("HdlcFrameReader.read is not `prologue; while <octet available>: step; epilogue`")
-        node, paths = loop_body_paths(self.engine, fn, 0)
-        if node is not loops[0]:
-            raise Undecided("nested loop precedes the read loop")
-        for p in paths:
-            if p.status not in ("run", "continue"):
-                raise Undecided(f"read-loop path leaves the loop with status {p.status}")
-        return node, paths
+        it = loop_iterations(self.engine, fn)
+        if it is None:
+            raise Undecided("HdlcFrameReader.read is not `prologue; one loop over the buffered octets; epilogue`")
+        node, conts, leaving, _ = it
+        self.leaving = leaving
+        for p in leaving:
+            # the only way out of the loop is its test: a path that pops an octet and then leaves is not a per-octet step
+            if any(e[0] == "callm" and e[1] == self.f0(self.roles.buffer) and self.bkind(e[2]) not in ("trim-pos", "avail", "len") and not isinstance(self.bkind(e[2]), tuple) for e in p.effects):
+                raise Undecided(f"read-loop path leaves the loop with status {p.status} after consuming input")
+        return node, conts
+
+    def bkind(self, callee):
+        """semantic kind of a buffer method (E-SEQ), independent of its name"""
+        return self.buf.kind(callee.split(".")[-1], (self.flag,))
 
     def f0(self, name):
         return ("f0", SELF, name)
 
     def is_popped(self, sv):
-        return sv[0] == "call" and len(sv) > 2 and sv[2] and sv[2][0] == self.f0(self.roles.buffer) and sv[1].startswith(f"{MOD}.{self.roles.buffer_cls[1]}.") \
-            and not sv[1].endswith(("is_available",))
+        return sv[0] == "call" and len(sv) > 2 and sv[2] and sv[2][0] == self.f0(self.roles.buffer) and isinstance(sv[1], str) and sv[1].startswith(f"{MOD}.{self.roles.buffer_cls[1]}.") \
+            and self.bkind(sv[1]) not in ("avail", "len")
 
     def mentions(self, sv, target):
         if sv == target:
@@ -291,11 +301,12 @@ class HdlcModel:
                 recv, callee, args = e[1], e[2], e[3]
                 if recv == self.f0(R.buffer):
                     short = callee.split(".")[-1]
-                    if short == "trim_buffer_to_current_position":
+                    bk = self.bkind(callee)
+                    if bk == "trim-pos":
                         post.trims.append("pos"); post.seq.append("trim")
-                    elif short == "trim_buffer_to_flag_or_end":
+                    elif isinstance(bk, tuple) and bk[0] == "trim-needle":
                         post.trims.append("flag"); post.seq.append("trim")
-                    elif not args and not short.startswith("trim") and short not in ("extend", "clear"):
+                    elif bk == "pop-octet" or (bk == "unknown" and not args):
                         post.pops += 1; post.seq.append("pop")
                         if R.pop is None:
                             R.pop = callee
